@@ -267,6 +267,9 @@ class Gen:
         x = r.random()
         if x < 0.45:
             ix["as"] = r.choice(["list", "tuple", "tensor"])
+        elif x < 0.7:
+            nonneg = all(v >= 0 for a in arrs for v in a["v"])
+            ix["as"] = r.choice(["i4", "i2", "i1"] + (["u1", "u4"] if nonneg else []))
         return ix
 
     def mask_index(self, sh):
